@@ -4,6 +4,9 @@ package main
 // in the evidence as an assumption.
 
 import (
+	"fmt"
+	"hash/fnv"
+	"strconv"
 	"go/ast"
 	"go/types"
 	"strings"
@@ -188,6 +191,32 @@ func (fv *FuncVerifier) libModel(st *State, full string, fn *types.Func, recv *V
 			}
 		}
 		return nil, false
+	case "fmt.Sprintf":
+		// constant formats made of literals, %.Nd / %d over unsigned integers (or fixed arrays of them) and %s:
+		// the result is an uninterpreted function of the arguments; when every numeric field has a fixed width
+		// and there is at most one %s the format is self-delimiting and the function is injective
+		if len(e.Args) >= 1 {
+			if tv, ok := fv.info().Types[e.Args[0]]; ok && tv.Value != nil {
+				format, err := strconv.Unquote(tv.Value.ExactString())
+				if err == nil {
+					var tys []types.Type
+					for _, x := range e.Args[1:] {
+						tys = append(tys, fv.typeOf(x))
+					}
+					if m := fv.eng.sprintfModel(format, tys); m != nil {
+						a := args()
+						term := m.apply(a[1:])
+						if m.injective {
+							fv.assumedLib("fmt.Sprintf(" + strconv.Quote(format) + ", ...) is a fixed-width, self-delimiting rendering of its arguments (injective)")
+						} else {
+							fv.assumedLib("fmt.Sprintf(" + strconv.Quote(format) + ", ...) is a function of its arguments (not self-delimiting: not injective)")
+						}
+						return []Val{{T: term, Ty: t}}, true
+					}
+				}
+			}
+		}
+		return nil, false
 	case "errors.Is":
 		a := args()
 		fv.eng.needErr = true
@@ -299,4 +328,142 @@ func (eng *Engine) needFieldAddr() {
 	eng.ufuns["addr.field"] = &UFun{Name: "addr.field", Args: []string{"Int", "Int"}, Ret: "Int"}
 	eng.axioms = append(eng.axioms, "(forall ((b Int) (k Int)) (! (> (addr.field b k) 0) :pattern ((addr.field b k))))")
 	eng.axioms = append(eng.axioms, "(forall ((b1 Int) (k1 Int) (b2 Int) (k2 Int)) (! (=> (= (addr.field b1 k1) (addr.field b2 k2)) (and (= b1 b2) (= k1 k2))) :pattern ((addr.field b1 k1) (addr.field b2 k2))))")
+}
+
+// sprintfFn is the model of fmt.Sprintf for one constant format.
+type sprintfFn struct {
+	name      string
+	expand    []int // per argument: 0 = pass as is, n > 0 = array of n elements passed element-wise
+	injective bool
+}
+
+func (m *sprintfFn) apply(args []Val) string {
+	var b strings.Builder
+	b.WriteString("(" + m.name)
+	for i, a := range args {
+		if i < len(m.expand) && m.expand[i] > 0 {
+			for k := 0; k < m.expand[i]; k++ {
+				fmt.Fprintf(&b, " (select %s %d)", a.T, k)
+			}
+		} else {
+			b.WriteString(" " + a.T)
+		}
+	}
+	b.WriteString(")")
+	return b.String()
+}
+
+func maxDecDigits(t types.Type) int {
+	if b, ok := t.Underlying().(*types.Basic); ok {
+		switch b.Kind() {
+		case types.Uint8:
+			return 3
+		case types.Uint16:
+			return 5
+		case types.Uint32:
+			return 10
+		case types.Uint64, types.Uint, types.Uintptr:
+			return 20
+		}
+	}
+	return 0 // signed or not an integer: no fixed width
+}
+
+// sprintfModel returns the model for a constant format, or nil when the format is outside the modelled subset.
+func (eng *Engine) sprintfModel(format string, tys []types.Type) *sprintfFn {
+	if eng.sprintfFns == nil {
+		eng.sprintfFns = map[string]*sprintfFn{}
+	}
+	key := format
+	for _, t := range tys {
+		key += "|" + t.String()
+	}
+	if m, ok := eng.sprintfFns[key]; ok {
+		return m
+	}
+	m := &sprintfFn{injective: true}
+	var sorts []string
+	arg := 0
+	nstr := 0
+	for i := 0; i < len(format); i++ {
+		if format[i] != '%' {
+			continue
+		}
+		i++
+		if i >= len(format) {
+			return nil
+		}
+		if format[i] == '%' {
+			continue
+		}
+		prec := -1
+		if format[i] == '.' {
+			prec = 0
+			i++
+			for i < len(format) && format[i] >= '0' && format[i] <= '9' {
+				prec = prec*10 + int(format[i]-'0')
+				i++
+			}
+		}
+		if i >= len(format) || arg >= len(tys) {
+			return nil
+		}
+		t := tys[arg]
+		switch format[i] {
+		case 'd':
+			et, n := t, 0
+			if a, ok := t.Underlying().(*types.Array); ok {
+				et, n = a.Elem(), int(a.Len())
+				if n == 0 || n > 16 {
+					return nil
+				}
+			}
+			if !isInteger(et) {
+				return nil
+			}
+			if w := maxDecDigits(et); w == 0 || prec < w {
+				m.injective = false // the field has no fixed width
+			}
+			m.expand = append(m.expand, n)
+			if n == 0 {
+				sorts = append(sorts, "Int")
+			}
+			for k := 0; k < n; k++ {
+				sorts = append(sorts, "Int")
+			}
+		case 's':
+			if !isString(t) {
+				return nil
+			}
+			nstr++
+			m.expand = append(m.expand, 0)
+			sorts = append(sorts, "Str")
+		default:
+			return nil
+		}
+		arg++
+	}
+	if arg != len(tys) {
+		return nil
+	}
+	if nstr > 1 {
+		m.injective = false
+	}
+	h := fnv.New32a()
+	h.Write([]byte(key))
+	m.name = fmt.Sprintf("fmt.sprintf_%08x", h.Sum32())
+	eng.ufuns[m.name] = &UFun{Name: m.name, Args: sorts, Ret: "Str"}
+	if m.injective && len(sorts) > 0 {
+		var bs, as, cs, eq []string
+		for i, srt := range sorts {
+			bs = append(bs, fmt.Sprintf("(a%d %s) (b%d %s)", i, srt, i, srt))
+			as = append(as, fmt.Sprintf("a%d", i))
+			cs = append(cs, fmt.Sprintf("b%d", i))
+			eq = append(eq, fmt.Sprintf("(= a%d b%d)", i, i))
+		}
+		fa, fb := "("+m.name+" "+strings.Join(as, " ")+")", "("+m.name+" "+strings.Join(cs, " ")+")"
+		eng.axioms = append(eng.axioms, "(forall ("+strings.Join(bs, " ")+") (! (=> (= "+fa+" "+fb+") (and "+strings.Join(eq, " ")+" true)) :pattern ("+fa+" "+fb+")))")
+	}
+	eng.sprintfFns[key] = m
+	return m
 }
